@@ -341,3 +341,40 @@ func (e *Engine) finishQuery(qs string) string {
 	}
 	return strings.Replace(qs, "%%DECLS%%\n", sb.String(), 1)
 }
+
+// fieldHeapsByName resolves a raw field-heap prefix "F.<pkg>.<Struct>.<field>" to its component heaps and sorts.
+func (e *Engine) fieldHeapsByName(prefix string) [][2]string {
+	parts := strings.Split(prefix, ".")
+	if len(parts) < 4 || parts[0] != "F" {
+		return nil
+	}
+	for _, p := range e.typePkgs {
+		if p.Name() != parts[1] {
+			continue
+		}
+		tn, ok := p.Scope().Lookup(parts[2]).(*types.TypeName)
+		if !ok {
+			continue
+		}
+		st, ok := tn.Type().Underlying().(*types.Struct)
+		if !ok {
+			continue
+		}
+		for i := 0; i < st.NumFields(); i++ {
+			f := st.Field(i)
+			if f.Name() != parts[3] || isStruct(f.Type()) {
+				continue
+			}
+			var out [][2]string
+			for _, c := range flatten(f.Type()) {
+				hn := fieldHeap(tn.Type(), f.Name(), c.Suffix)
+				if hn == prefix || strings.HasPrefix(hn, prefix+".") {
+					e.heapSort[hn] = arrSort(c.Sort)
+					out = append(out, [2]string{hn, arrSort(c.Sort)})
+				}
+			}
+			return out
+		}
+	}
+	return nil
+}
